@@ -6,10 +6,12 @@ E = "LLBuild.Engine."
 
 class Check(EngineCheck):
     prop = "C05"
-    module = "LLBuild.Props.C05"
+    module = "LLBuild.Props.C05All"
     theorems = [E + "C05_later_builds_clean", E + "C05_cancelled_build_fails", E + "C05_interrupted_reset",
                 E + "C05_persisted_only_completed", E + "C05_quiescent", E + "step_inv",
-                E + "engine_fingerprint_matches_model"]
+                E + "engine_fingerprint_matches_model",
+                # for every run of the concrete engine model (refinement, Lemmas/Refine): nothing is left behind, later builds are clean
+                "LLBuild.Refine.refinement_final", "LLBuild.Refine.EngineImpl_sound_C05_quiescent", "LLBuild.Refine.EngineImpl_sound_C01"]
     mix = [(0.7, {"cancel": True}), (0.15, {"cancel": True, "threads": True}), (0.15, {"cancel": True, "cyclic": True})]
     budget = (350, 3500)
     assumptions = EngineCheck.assumptions + [
